@@ -215,6 +215,11 @@ func (s *SoftwrapScanner) Scan(ctx vxfw.DrawContext) bool {
 			s.rest = []byte{}
 			// Append characters to token until we reach the end
 			for _, char := range wordChars {
+				// A grapheme which doesn't fit on the partly filled line
+				// ends it: a wide grapheme must not overflow the width
+				if len(s.token) > 0 && w+uint16(char.Width) > s.width {
+					w = s.width
+				}
 				if w >= s.width {
 					// Append the rest to rest
 					s.rest = append(s.rest, []byte(char.Grapheme)...)
